@@ -58,6 +58,9 @@ Engine/Magic.vos Engine/Magic.vok Engine/Magic.required_vos: Engine/Magic.v Base
 Engine/MagicProofs.vo Engine/MagicProofs.glob Engine/MagicProofs.v.beautified Engine/MagicProofs.required_vo: Engine/MagicProofs.v Engine/Magic.vo
 Engine/MagicProofs.vio: Engine/MagicProofs.v Engine/Magic.vio
 Engine/MagicProofs.vos Engine/MagicProofs.vok Engine/MagicProofs.required_vos: Engine/MagicProofs.v Engine/Magic.vos
+Engine/MateScore.vo Engine/MateScore.glob Engine/MateScore.v.beautified Engine/MateScore.required_vo: Engine/MateScore.v Gen/Consts.vo Engine/SearchDriver.vo
+Engine/MateScore.vio: Engine/MateScore.v Gen/Consts.vio Engine/SearchDriver.vio
+Engine/MateScore.vos Engine/MateScore.vok Engine/MateScore.required_vos: Engine/MateScore.v Gen/Consts.vos Engine/SearchDriver.vos
 Engine/Polyglot.vo Engine/Polyglot.glob Engine/Polyglot.v.beautified Engine/Polyglot.required_vo: Engine/Polyglot.v Engine/RepAbs.vo Engine/Magic.vo
 Engine/Polyglot.vio: Engine/Polyglot.v Engine/RepAbs.vio Engine/Magic.vio
 Engine/Polyglot.vos Engine/Polyglot.vok Engine/Polyglot.required_vos: Engine/Polyglot.v Engine/RepAbs.vos Engine/Magic.vos
@@ -181,6 +184,9 @@ Props/Properties_C05.vos Props/Properties_C05.vok Props/Properties_C05.required_
 Props/Properties_C07.vo Props/Properties_C07.glob Props/Properties_C07.v.beautified Props/Properties_C07.required_vo: Props/Properties_C07.v Chess/Rules.vo Chess/History.vo Chess/RulesFacts.vo
 Props/Properties_C07.vio: Props/Properties_C07.v Chess/Rules.vio Chess/History.vio Chess/RulesFacts.vio
 Props/Properties_C07.vos Props/Properties_C07.vok Props/Properties_C07.required_vos: Props/Properties_C07.v Chess/Rules.vos Chess/History.vos Chess/RulesFacts.vos
+Props/Properties_C08.vo Props/Properties_C08.glob Props/Properties_C08.v.beautified Props/Properties_C08.required_vo: Props/Properties_C08.v Gen/Consts.vo Engine/SearchDriver.vo Engine/MateScore.vo
+Props/Properties_C08.vio: Props/Properties_C08.v Gen/Consts.vio Engine/SearchDriver.vio Engine/MateScore.vio
+Props/Properties_C08.vos Props/Properties_C08.vok Props/Properties_C08.required_vos: Props/Properties_C08.v Gen/Consts.vos Engine/SearchDriver.vos Engine/MateScore.vos
 Props/Properties_C09.vo Props/Properties_C09.glob Props/Properties_C09.v.beautified Props/Properties_C09.required_vo: Props/Properties_C09.v Gen/Consts.vo Engine/SearchDriver.vo Engine/SearchDriverProofs.vo
 Props/Properties_C09.vio: Props/Properties_C09.v Gen/Consts.vio Engine/SearchDriver.vio Engine/SearchDriverProofs.vio
 Props/Properties_C09.vos Props/Properties_C09.vok Props/Properties_C09.required_vos: Props/Properties_C09.v Gen/Consts.vos Engine/SearchDriver.vos Engine/SearchDriverProofs.vos
